@@ -258,8 +258,8 @@ func (r *StatusReporter) Report(ctx context.Context) (*MigrateStatus, error) {
 			return nil, err
 		}
 	}
-	switch len(rep.Pending) {
-	case len(rep.Available):
+	switch len(rep.Applied) {
+	case 0:
 		rep.Current = "No migration applied yet"
 	default:
 		rep.Current = rep.Applied[len(rep.Applied)-1].Version
